@@ -251,4 +251,19 @@ theorem C09_source_skeletons_3 :
     Gen.Skel.DB_ApplyLTXNoLock = Expected.Skel.DB_ApplyLTXNoLock :=
   ⟨rfl, rfl⟩
 
+/-- Retention decides before it removes — facts proved by `decide` about the skeleton of
+    `(DB).EnforceRetention` regenerated from db.go: the high-water mark is read first, the tests
+    for a configured backup client and for the newest file come before the test of
+    `shouldRemove`, a file that is kept is skipped (`continue`) before the one `Remove`. -/
+theorem C09_retention_decides_before_it_removes :
+    let ix (sk : List (String × String)) (x : String × String) (d : Nat) := (sk.findIdx? (· == x)).getD d
+    let t := Gen.Skel.DB_EnforceRetention
+    ix t ("call", "db.HWM") 1000 < ix t ("call", "db.ReadLTXDir") 0 ∧
+    ix t ("if", "db.store.BackupClient != nil") 1000 < ix t ("if", "!shouldRemove") 0 ∧
+    ix t ("if", "i == len(ents)-1") 1000 < ix t ("if", "!shouldRemove") 0 ∧
+    ix t ("if", "!shouldRemove") 1000 < ix t ("call", "db.os.Remove") 0 ∧
+    ((t.drop (ix t ("if", "!shouldRemove") 1000)).takeWhile (· != ("call", "db.os.Remove"))).contains ("branch", "continue") = true ∧
+    (t.filter (· == ("call", "db.os.Remove"))).length = 1 := by
+  decide
+
 end LiteFSVerif.C09
